@@ -12,6 +12,7 @@ Spec functions are written in the same Python subset over the parse-tree accesso
 """
 MODULE = "blackbird_python/blackbird/auxiliary.py"
 GLOBALS = ["_VAR", "_PARAMS"]
+GLOBAL_TYPES = {"_VAR": "dict", "_PARAMS": "list"}      # type invariants of the module tables (assumed at entry, kept by every summary)
 
 CONTRACTS = {
     "_literal": {"params": ["nonnumeric"], "reads": [], "modifies": [], "raises": ["ValueError"], "spec": "spec__literal",
